@@ -118,7 +118,8 @@ class Template(abc.ABC):
         if not path.is_dir():
             raise FailedToCreateTemplate(f"Template folder do not exist or is not a directory: {path}")
         
-        for entry in path.iterdir():
+        # Sorted: which of two templates that differ by case only wins must not depend on the order of the directory listing.
+        for entry in sorted(path.iterdir(), key=lambda p: p.name):
             entry_path = subdir.joinpath(entry.name)
             if entry.is_dir():
                 yield from Template.fromdir(basedir, entry_path)
